@@ -126,7 +126,17 @@ func verifC14Options(label string, unrelated bool) verifC14Opts {
 		o.AllowedEmailAddresses = entry(label + ".address")
 	}
 	if st == 4 || st == 5 {
-		o.SkipAuthRegex = []string{verifC14Patterns[zz.Choose(label+".skip.pattern", 2)]}
+		// one pattern (good or bad), or two with the bad one first or last
+		switch zz.Choose(label+".skip.pattern", 4) {
+		case 0:
+			o.SkipAuthRegex = []string{verifC14Patterns[0]}
+		case 1:
+			o.SkipAuthRegex = []string{verifC14Patterns[1]}
+		case 2:
+			o.SkipAuthRegex = []string{verifC14Patterns[1], verifC14Patterns[0]}
+		case 3:
+			o.SkipAuthRegex = []string{verifC14Patterns[0], verifC14Patterns[1]}
+		}
 	}
 	if unrelated {
 		o.Timeout = zz.NondetDuration(label + ".timeout")
